@@ -142,7 +142,8 @@ theorem safe_parseValueBody (isNum : String → Bool) {pv : P VBox} (hpv : Safe 
             refine safe_bind (by safe_prim) fun _ _ => ?_
             split
             · safe_auto
-            · repeat' (first | exact safe_pure trivial | refine safe_ite (fun _ => ?_) (fun _ => ?_))
+            · refine safe_bind (by safe_prim) fun _ _ => ?_
+              repeat' (first | exact safe_pure trivial | refine safe_ite (fun _ => ?_) (fun _ => ?_))
 
 theorem safe_parseValueN (isNum : String → Bool) (n : Nat) : Safe c ok (parseValueN isNum n) (fun _ => True) := by
   induction n with
